@@ -264,6 +264,11 @@ cdef class ZOrderNNPS(NNPS):
         cdef int c_x, c_y, c_z
 
         cdef int i, n
+
+        if curr_num_particles == 0:
+            # an empty array has no keys to sort and adds no cell
+            return curr_cid
+
         for i in range(curr_num_particles):
             find_cell_id_raw(
                     x_ptr[i] - xmin[0],
@@ -437,6 +442,10 @@ cdef class ZOrderNNPS(NNPS):
 
             for j in range(self.max_cid):
                 current_lengths[j] = 1
+
+            if num_particles == 0:
+                # an empty array has no neighbors to offer
+                continue
 
             pid = current_pids[0]
             cid = current_cids[pid]
@@ -827,6 +836,10 @@ cdef class ExtendedZOrderNNPS(ZOrderNNPS):
             for j in range(self.max_cid):
                 current_lengths[j] = 1
                 current_hmax[j] = 0
+
+            if num_particles == 0:
+                # an empty array has no neighbors to offer
+                continue
 
             pid = current_pids[0]
             cid = current_cids[pid]
